@@ -132,32 +132,49 @@ def number_rules(rep, prog):
 
 
 def no_valid_ranges(rep, prog):
+    """range_set is interpreted as a whole with the result of its inner parser (the list of alternatives) supplied:
+    an empty list must give an error whose kind is NoValidRanges, a non-empty one Ok(Range(list))"""
     rep.rule("E3-no-valid-ranges", 2, "range_set: NoValidRanges exactly when no alternative is left; otherwise Range(alternatives)")
-    g, _ = gram.extract(prog)
-    p = g.get("range::range_set")
-    while p is not None and p.kind == "context":
-        p = p.args[0]
-    if p is None or p.kind != "try_map" or not isinstance(p.extra, Clo):
-        rep.inconc("range_set is not try_map(bound_sets, closure)")
+    FN = "range::range_set"
+    if not prog.has_body(FN):
+        rep.inconc("range::range_set not found")
         return
-    clo = p.extra
+    from ..interp import err as mk_err, ok as mk_ok
+
+    class TryLeaf(gram.LeafPolicy):
+        """as LeafPolicy, but a failing `try_map` function makes the parser fail with its error (winnow wraps it with
+        FromExternalError, whose kind preservation is rule E3-kind-survives)"""
+
+        def parse_next(pself, interp, p, inp, info):
+            q = p
+            while q.kind in ("context", "cut_err"):
+                q = q.args[0]
+            if q.kind == "try_map":
+                r = interp.call_value(q.extra, [pself.apply(interp, q.args[0])])
+                if isinstance(r, Adt) and r.name == "std::result::Result" and r.variant == 1:
+                    return mk_err(r.fields[0])
+                return r
+            return mk_ok(pself.apply(interp, p))
     for items in ([], [Tok("S", "alt0", 1, dom="set")]):
-        it = Interp(prog, Policy())
+        pol = TryLeaf(ListV(items))
+        it = Interp(prog, pol)
+        inp = Ptr(Cell(Ptr(Cell(Tok("T", "stream", "", dom="text")))))
         try:
-            # the closure captures `input` (for the error position); rebuild the capture with a token
-            caps = tuple(Ptr(Cell(Ptr(Cell(Tok("T", "stream", "", dom="text"))))) for _ in clo.caps)
-            r = it.call_closure(Clo(clo.key, caps), [ListV(items)])
+            r = it.call_body(FN, [inp])
         except Inconclusive as e:
-            rep.inconc("range_set closure: " + e.reason, e.where)
+            rep.inconc("range_set: " + e.reason, e.where)
             continue
         rep.path(("nvr", path_sig(it)))
         if not items:
             good = False
             if isinstance(r, Adt) and r.name == "std::result::Result" and r.variant == 1:
                 e = it.strip(r.fields[0])
-                f = dict(zip(prog.field_names(E.SPE), e.fields))
-                k = f["kind"]
-                good = is_some(k) and prog.variant_name(E.KIND, it.strip(k.fields[0]).variant) == "NoValidRanges"
+                if isinstance(e, Adt) and e.name.startswith("winnow::error::ErrMode") and e.fields:
+                    e = it.strip(e.fields[0])
+                if isinstance(e, Adt) and e.name == E.SPE:
+                    f = dict(zip(prog.field_names(E.SPE), e.fields))
+                    k = f["kind"]
+                    good = is_some(k) and prog.variant_name(E.KIND, it.strip(k.fields[0]).variant) == "NoValidRanges"
             if good:
                 rep.ok("E3-no-valid-ranges")
             else:
